@@ -126,7 +126,10 @@ func (g *G) realQuery(dim int, kind string, prims [][]V, bs, aim []box) query {
 	switch kind {
 	case "ray", "first":
 		o, d := g.rayThrough(dim, t, bs[i], false)
-		q.a = append(append(q.a, o[:dim]...), d[:dim]...)
+		q.setRay(dim, o, d, g.dirScale())
+		if tinyDir(dim, q.pt(dim, 1)) {
+			g.Stat("real ray tiny-dir-component(<1e-6)", 1)
+		}
 	case "sphere": // centre at axis distance r from a point of the primitive
 		r := g.pickF([]float64{0.5, 1, 1.5, 2, 0.25, 0})
 		c := t
@@ -266,8 +269,12 @@ func (g *G) realSet3() int {
 	n := g.pickI(realSizes)
 	prims := g.randPrims(3, 3, n, g.p(0.5)) // zero-area triangles poison `tri` queries (NaN segments), so only in half of the sets
 	tris := make([]*model3d.Triangle, n)
+	ss := g.sceneScale() // the whole scene (triangles and queries) times a power of two
 	for i, p := range prims {
-		tris[i] = &model3d.Triangle{c3(p[0]), c3(p[1]), c3(p[2])}
+		tris[i] = &model3d.Triangle{c3(p[0].scale(ss)), c3(p[1].scale(ss)), c3(p[2].scale(ss))}
+	}
+	if ss != 1 {
+		g.Stat("real3 sets far from unit scale", 1)
 	}
 	var collH, collB, collM model3d.Collider
 	var shB *shape
@@ -297,19 +304,21 @@ func (g *G) realSet3() int {
 	if shB != nil && (!shB.binary() || !isPerm(n, shB.leaves())) {
 		g.PropFail("prop:c08 bvh-not-permutation", "NewBVHAreaDensity on triangles")
 	}
-	bs := make([]box, n)
+	bs, bs0 := make([]box, n), make([]box, n) // bs0 / prims: unit-size copies for the query generators
 	for i, t := range tris { // prims in grouped order
 		bs[i] = box{v3(t.Min()), v3(t.Max())}
-		prims[i] = []V{v3(t[0]), v3(t[1]), v3(t[2])}
+		bs0[i] = bs[i].scale(1 / ss)
+		prims[i] = []V{v3(t[0]).scale(1 / ss), v3(t[1]).scale(1 / ss), v3(t[2]).scale(1 / ss)}
 	}
 	shH := &shape{k: 'H', ids: seq(n)}
-	aim := g.aimBoxes(3, bs)
+	aim := g.aimBoxes(3, bs0)
 	emitted := 0
 	for _, kind := range kinds3 {
 		if g.p(0.4) {
 			continue
 		}
-		q := g.realQuery(3, kind, prims, bs, aim)
+		q := g.realQuery(3, kind, prims, bs0, aim)
+		q.scaleScene(ss)
 		ans, lsegs, pan := realAns3(tris, q)
 		ok := pan == ""
 		for _, a := range ans {
@@ -415,8 +424,12 @@ func (g *G) realSet2() int {
 	n := g.pickI(realSizes)
 	prims := g.randPrims(2, 2, n, true)
 	segs := make([]*model2d.Segment, n)
+	ss := g.sceneScale()
 	for i, p := range prims {
-		segs[i] = &model2d.Segment{c2(p[0]), c2(p[1])}
+		segs[i] = &model2d.Segment{c2(p[0].scale(ss)), c2(p[1].scale(ss))}
+	}
+	if ss != 1 {
+		g.Stat("real2 sets far from unit scale", 1)
 	}
 	var collH, collB, collM model2d.Collider
 	var shB *shape
@@ -446,13 +459,14 @@ func (g *G) realSet2() int {
 	if shB != nil && (!shB.binary() || !isPerm(n, shB.leaves())) {
 		g.PropFail("prop:c08 bvh-not-permutation", "NewBVHAreaDensity on segments")
 	}
-	bs := make([]box, n)
+	bs, bs0 := make([]box, n), make([]box, n)
 	for i, s := range segs {
 		bs[i] = box{v2(s.Min()), v2(s.Max())}
-		prims[i] = []V{v2(s[0]), v2(s[1])}
+		bs0[i] = bs[i].scale(1 / ss)
+		prims[i] = []V{v2(s[0]).scale(1 / ss), v2(s[1]).scale(1 / ss)}
 	}
 	shH := &shape{k: 'H', ids: seq(n)}
-	aim := g.aimBoxes(2, bs)
+	aim := g.aimBoxes(2, bs0)
 	tag := func(rc model2d.RayCollision) int {
 		if s, ok := rc.Extra.(*model2d.Segment); ok {
 			if i, ok := idx[s]; ok {
@@ -466,7 +480,8 @@ func (g *G) realSet2() int {
 		if g.p(0.4) {
 			continue
 		}
-		q := g.realQuery(2, kind, prims, bs, aim)
+		q := g.realQuery(2, kind, prims, bs0, aim)
+		q.scaleScene(ss)
 		ans, pan := realAns2(segs, q)
 		ok := pan == ""
 		for _, a := range ans {
@@ -542,8 +557,12 @@ func (g *G) realDist3() int {
 	n := g.pickI(distSizes)
 	prims := g.randPrims(3, 3, n, false)
 	tris := make([]*model3d.Triangle, n)
+	ss := g.sceneScale()
 	for i, p := range prims {
-		tris[i] = &model3d.Triangle{c3(p[0]), c3(p[1]), c3(p[2])}
+		tris[i] = &model3d.Triangle{c3(p[0].scale(ss)), c3(p[1].scale(ss)), c3(p[2].scale(ss))}
+	}
+	if ss != 1 {
+		g.Stat("d3 sets far from unit scale", 1)
 	}
 	var sdf, sdfM model3d.FaceSDF
 	idx := map[*model3d.Triangle]int{}
@@ -555,16 +574,17 @@ func (g *G) realDist3() int {
 		g.PropFail("prop:c08 d3-build-panics", pan)
 		return 1
 	}
-	bs := make([]box, n)
+	bs, bs0 := make([]box, n), make([]box, n)
 	for i, t := range tris {
 		idx[t] = i
 		bs[i] = box{v3(t.Min()), v3(t.Max())}
-		prims[i] = []V{v3(t[0]), v3(t[1]), v3(t[2])}
+		bs0[i] = bs[i].scale(1 / ss)
+		prims[i] = []V{v3(t[0]).scale(1 / ss), v3(t[1]).scale(1 / ss), v3(t[2]).scale(1 / ss)}
 	}
 	nq := 6 + g.Rng.Intn(7)
 	emitted := 0
 	for k := 0; k < nq; k++ {
-		c := g.distPoint(3, prims, bs)
+		c := g.distPoint(3, prims, bs0).scale(ss)
 		ds := make([]float64, n)
 		best, finite := math.Inf(1), true
 		for i, t := range tris {
@@ -627,8 +647,12 @@ func (g *G) realDist2() int {
 	n := g.pickI(distSizes)
 	prims := g.randPrims(2, 2, n, false)
 	segs := make([]*model2d.Segment, n)
+	ss := g.sceneScale()
 	for i, p := range prims {
-		segs[i] = &model2d.Segment{c2(p[0]), c2(p[1])}
+		segs[i] = &model2d.Segment{c2(p[0].scale(ss)), c2(p[1].scale(ss))}
+	}
+	if ss != 1 {
+		g.Stat("d2 sets far from unit scale", 1)
 	}
 	var sdf, sdfM model2d.FaceSDF
 	idx := map[*model2d.Segment]int{}
@@ -640,16 +664,17 @@ func (g *G) realDist2() int {
 		g.PropFail("prop:c08 d2-build-panics", pan)
 		return 1
 	}
-	bs := make([]box, n)
+	bs, bs0 := make([]box, n), make([]box, n)
 	for i, s := range segs {
 		idx[s] = i
 		bs[i] = box{v2(s.Min()), v2(s.Max())}
-		prims[i] = []V{v2(s[0]), v2(s[1])}
+		bs0[i] = bs[i].scale(1 / ss)
+		prims[i] = []V{v2(s[0]).scale(1 / ss), v2(s[1]).scale(1 / ss)}
 	}
 	nq := 6 + g.Rng.Intn(7)
 	emitted := 0
 	for k := 0; k < nq; k++ {
-		c := g.distPoint(2, prims, bs)
+		c := g.distPoint(2, prims, bs0).scale(ss)
 		ds := make([]float64, n)
 		best, finite := math.Inf(1), true
 		for i, s := range segs {
